@@ -171,6 +171,10 @@ def _run(tier, seed, harness, d):
         res["goal_runs"] = []
         for cfg, hcfgs, found, st in goals:
             behs = sorted({b for bs in found.values() for b in sorted(bs)[:2]})
+            # the validator operator o1 carries its genesis self-stake in the real world (the bounded model
+            # starts from empty pools): replay every goal behaviour also with o1 and o2 exchanged, so that the
+            # goal's pool states are reached on the operator that starts empty
+            behs = sorted(set(behs) | {b.replace('"o1"', '"o#"').replace('"o2"', '"o1"').replace('"o#"', '"o2"') for b in behs})
             res["goal_runs"].append({"cfg": cfg, "goals_reached": sorted(found), "behaviours": len(behs), "states": st["distinct"], "worlds": len(hcfgs)})
             for wi, hcfg in enumerate(hcfgs):
                 wname = f"goal:{cfg}:{wi}"
